@@ -176,3 +176,18 @@ Definition check_gen_in_box (cs : building F * boxcase * bool) : bool :=
   | Some b => Bool.eqb (in_box F b (raw_of F p)) expected
   | None => false
   end.
+
+(* one cases stream for everything harness/c15.py sends (a single coqc round per run) *)
+Inductive anycase :=
+| AFit (c : fitcase)
+| AFinalBox (c : boxcase)
+| AInitialBox (c : list float * list float * list frow)
+| AGenInBox (c : building F * boxcase * bool).
+
+Definition check_any (a : anycase) : bool :=
+  match a with
+  | AFit c => check_fit c
+  | AFinalBox c => check_final_box c
+  | AInitialBox c => check_initial_box c
+  | AGenInBox c => check_gen_in_box c
+  end.
